@@ -16,7 +16,7 @@ import (
 func init() {
 	Register(&Property{
 		ID: "C01",
-		Explanation: "Decides structural necessary conditions of 'Check = reference semantics': (R01.8) an object handed to a sub-check that keeps running concurrently is not written afterwards by the code that handed it over (otherwise the answer depends on the schedule); (R01.7) a visited set is installed only below a single check, never by code that fans out several checks with one context; (R01.1) every AST node kind and operator the OPL parser can construct has a case in every dispatch of the check engine; (R01.2) the boolean combinators (or, and, not, the concurrent check group, the pass-through stages) have the right truth tables -- decided by abstractly executing each over the six abstract results; (R01.3) the visited set used to cut cycles is never shared between the operands of an intersection or with the child of a negation, on both routes a context reaches an operand (when it is built, when it is invoked), and is fresh per operand; (R01.5) which of the three sub-checks (rewrite, direct lookup, subject-set expansion) join the union equals the documented table for all valuations of (strict mode, relation configured, has rewrite, declares SubjectSet<>, skipDirect); (R01.6) every call that skips the direct lookup takes its tuple from a traversal result whose Found flag was tested first; (R01.4) the traversal SQL binds the columns the semantics names (decided with the SQL rules, reported under C04/C06 when those are built). " +
+		Explanation: "Decides structural necessary conditions of 'Check = reference semantics': (R01.10) the tuple listings the engine evaluates over are complete: sort column = cursor column = token column with a strict '>' in GetRelationTuples and in the traversal's internal paging, and the engine's page loops run to the empty token; (R01.9) a loop that adds one sub-check per fetched tuple adds one for every tuple, the only skips being 'already visited' and 'not a subject set'; (R01.8) an object handed to a sub-check that keeps running concurrently is not written afterwards by the code that handed it over (otherwise the answer depends on the schedule); (R01.7) a visited set is installed only below a single check, never by code that fans out several checks with one context; (R01.1) every AST node kind and operator the OPL parser can construct has a case in every dispatch of the check engine; (R01.2) the boolean combinators (or, and, not, the concurrent check group, the pass-through stages) have the right truth tables -- decided by abstractly executing each over the six abstract results; (R01.3) the visited set used to cut cycles is never shared between the operands of an intersection or with the child of a negation, on both routes a context reaches an operand (when it is built, when it is invoked), and is fresh per operand; (R01.5) which of the three sub-checks (rewrite, direct lookup, subject-set expansion) join the union equals the documented table for all valuations of (strict mode, relation configured, has rewrite, declares SubjectSet<>, skipDirect); (R01.6) every call that skips the direct lookup takes its tuple from a traversal result whose Found flag was tested first; (R01.4) the traversal SQL binds the columns the semantics names (decided with the SQL rules, reported under C04/C06 when those are built). " +
 			"Not decided: equality with the reference semantics over all configurations and stores, schedule independence in general, SQL engine semantics.",
 		Assumptions: []string{
 			"the documented mode table (embedx/config.schema.json, experimental_strict_mode) is the specification of default/strict mode",
@@ -38,6 +38,10 @@ func runC01(c *Ctx) {
 	visitedInstallScope(c, "R01.7")
 	// R01.8 schedule independence: what a still running sub-check holds is not rewritten
 	handedObjectsNotRewritten(c, "R01.8")
+	r019(c)
+	// R01.10 the listings the engine evaluates over are complete: keyset paging of
+	// GetRelationTuples and of the traversal, and the engine's page loops (the C07 rules)
+	c.R.SubRun(func() { runC07(c) }, map[string]string{"R07.1": "R01.10", "R07.2": "R01.10", "R07.5": "R01.10"})
 }
 
 // ---- R01.4 the traversal SQL binds the columns the semantics names ------------------------------
@@ -826,4 +830,152 @@ func r016(c *Ctx) {
 	if n < 2 {
 		r.Undecide("R01.6", "", "skipDirect=true sites", "", fmt.Sprintf("%d sites found, floor 2 (subject-set expansion, computed-subject-set shortcut)", n))
 	}
+}
+
+// ---- R01.9 fan-out completeness -----------------------------------------------------------------
+
+// r019: a loop of the check engine that adds one sub-check per fetched element
+// (g.Add of a call into the engine) adds one for every element: from the start
+// of the loop body the next iteration is reachable without passing such an Add
+// only over an enumerated skip edge -- the element was already visited
+// (CheckAndAddVisited), or it is not a subject set (comma-ok type assertion).
+// Any other `continue` silently drops a candidate (a false "not a member").
+func r019(c *Ctx) {
+	p, r := c.P, c.R
+	eng := map[*ssa.Function]bool{}
+	for _, f := range engineFunctions(p) {
+		eng[f] = true
+	}
+	n := 0
+	for _, fn := range p.KetoFuncs("internal/check") {
+		// event blocks: g.Add(<engine call>)
+		events := map[*ssa.BasicBlock]ssa.Instruction{}
+		core.Instrs(fn, func(b *ssa.BasicBlock, _ int, ins ssa.Instruction) {
+			ci, ok := ins.(ssa.CallInstruction)
+			if !ok || len(ci.Common().Args) == 0 {
+				return
+			}
+			if obj := core.CalleeObj(ci.Common()); obj == nil || obj.Name() != "Add" {
+				return
+			}
+			arg := ci.Common().Args[len(ci.Common().Args)-1]
+			if call, ok := core.ValueOrigin(arg).(*ssa.Call); ok {
+				if sc := call.Call.StaticCallee(); sc != nil && eng[sc] && core.InLoop(b) {
+					events[b] = ins
+				}
+			}
+		})
+		for eb, ev := range events {
+			// the loop body entry: the block that loads the current element (IndexAddr / range next)
+			// = the nearest dominator of eb inside the same cycle whose predecessor set contains the loop header
+			var body *ssa.BasicBlock
+			for d := eb; d != nil; d = d.Idom() {
+				if !sameCycle(d, eb) {
+					break
+				}
+				hasElem := false
+				for _, ins := range d.Instrs {
+					switch x := ins.(type) {
+					case *ssa.IndexAddr:
+						if _, isConst := x.Index.(*ssa.Const); !isConst {
+							hasElem = true
+						}
+					case *ssa.Next:
+						hasElem = true
+					}
+				}
+				if hasElem {
+					body = d
+				}
+			}
+			if body == nil {
+				r.Undecide("R01.9", core.FuncName(fn), "fan-out loop", p.Pos(ev.Pos()), "cannot find the block that loads the loop's current element")
+				continue
+			}
+			n++
+			// search: from body, reach body again (next iteration) avoiding event blocks and skip edges
+			skipEdge := func(from, to *ssa.BasicBlock) bool {
+				if len(from.Instrs) == 0 {
+					return false
+				}
+				ifi, ok := from.Instrs[len(from.Instrs)-1].(*ssa.If)
+				if !ok {
+					return false
+				}
+				onTrue := from.Succs[0] == to
+				v, truth := core.ValueOrigin(ifi.Cond), onTrue
+				for i := 0; i < 4; i++ {
+					u, ok := v.(*ssa.UnOp)
+					if !ok || u.Op != token.NOT {
+						break
+					}
+					v, truth = core.ValueOrigin(u.X), !truth
+				}
+				ex, ok := v.(*ssa.Extract)
+				if !ok {
+					return false
+				}
+				switch t := ex.Tuple.(type) {
+				case *ssa.Call:
+					return core.IsCallTo(t, "CheckAndAddVisited") && ex.Index == 1 && truth
+				case *ssa.TypeAssert:
+					return t.CommaOk && ex.Index == 1 && !truth
+				}
+				return false
+			}
+			var bad *ssa.BasicBlock
+			seen := map[*ssa.BasicBlock]bool{}
+			var walk func(b *ssa.BasicBlock, first bool)
+			walk = func(b *ssa.BasicBlock, first bool) {
+				if bad != nil {
+					return
+				}
+				if !first && b == body {
+					bad = b
+					return
+				}
+				if seen[b] {
+					return
+				}
+				seen[b] = true
+				if _, isEv := events[b]; isEv {
+					return
+				}
+				for _, s := range b.Succs {
+					if !sameCycle(s, body) || skipEdge(b, s) {
+						continue
+					}
+					prev := b
+					walk(s, false)
+					if bad == s && bad == body {
+						bad = prev // report the block that jumps back
+						return
+					}
+				}
+			}
+			walk(body, true)
+			pos := p.Pos(ev.Pos())
+			detail := ""
+			if bad != nil {
+				if len(bad.Instrs) > 0 {
+					pos = p.Pos(lastPos(bad))
+				}
+				detail = "the loop can go on to the next element without adding a sub-check for this one, on a path that is neither the already-visited skip nor the not-a-subject-set skip: a candidate is dropped and the check can answer 'not a member' for a member"
+			}
+			r.Check(bad == nil, "R01.9", core.FuncName(fn), "fan-out loop", pos,
+				"every element of the fetched list adds a sub-check unless it was already visited or is not a subject set", detail)
+		}
+	}
+	if n < 2 {
+		r.Undecide("R01.9", "", "fan-out loops", "", fmt.Sprintf("%d found (floor 2: subject-set expansion, tuple-to-subject-set)", n))
+	}
+}
+
+func lastPos(b *ssa.BasicBlock) token.Pos {
+	for i := len(b.Instrs) - 1; i >= 0; i-- {
+		if b.Instrs[i].Pos().IsValid() {
+			return b.Instrs[i].Pos()
+		}
+	}
+	return token.NoPos
 }
